@@ -68,15 +68,30 @@ def do_request(grammar, req, rnd=None, mutate=False):
         return ("raises", type(e).__name__)
     res = tuple(structure(t) for t in trees)
     if mutate and trees:
-        t = trees[0]
-        try:                     # damage the copy that was handed out
-            for c in list(t.children):
-                c._parent = None
-            t.set_children([])
-            t._symbol = type(t.symbol)("<damaged>") if t.symbol.is_non_terminal else t.symbol
-        except Exception:
-            pass
+        damage(trees[0])
     return res
+
+
+def damage(t):
+    """edit a tree that was handed out, at every level: leaves are replaced, inner nodes renamed, the root emptied"""
+    from fandango.language.symbols.non_terminal import NonTerminal
+    from fandango.language.symbols.terminal import Terminal
+    from fandango.language.tree import DerivationTree
+    try:
+        nodes = [t]
+        k = 0
+        while k < len(nodes):
+            nodes.extend(nodes[k].children)
+            k += 1
+        for n in reversed(nodes[1:]):
+            if n.children:
+                n.set_children(list(n.children) + [DerivationTree(Terminal("#"))])
+                n.symbol = NonTerminal("<damaged>")
+            else:
+                n.symbol = Terminal("#")
+        t.set_children([])
+    except Exception:
+        pass
 
 
 def renderings(w):
@@ -128,13 +143,23 @@ def run(tier="quick", seed=0, pid="C12"):
         has_gen = name in family.GENERATOR_SPECS
         reference = {}
         history = []
-        for step in range(seq_len):
+        # scripted openings (every spec): an abandoned / first-tree-only request followed by the whole forest for the same input and
+        # mode; a whole forest whose first tree is damaged, followed by the same request; then the random sequence
+        scripted = []
+        for w in pool[:3]:
+            for m in ("complete", "incomplete"):
+                scripted += [(("first", w, "<start>", m), False), (("forest", w, "<start>", m), True), (("forest", w, "<start>", m), False),
+                             (("abandon", w, "<start>", m), True), (("multiple", w, "<start>", m), False)]
+        for step in range(len(scripted) + seq_len):
             kind = rnd.choice(["forest", "forest", "first", "abandon", "multiple", "fuzz" if has_gen or rnd.random() < 0.3 else "forest"])
             word = rnd.choice(pool)
             start = "<start>" if rnd.random() < 0.8 else rnd.choice(starts)
             mode = "complete" if rnd.random() < 0.8 else "incomplete"
             req = (kind, word, start, mode) if kind != "fuzz" else ("fuzz", None, "<start>", "complete")
             mutate = rnd.random() < 0.4
+            if step < len(scripted):
+                req, mutate = scripted[step]
+                kind = req[0]
             history.append((req, mutate))
             got, to = with_budget(lambda: do_request(shared, req, rnd, mutate))
             if to:
@@ -166,8 +191,8 @@ def run(tier="quick", seed=0, pid="C12"):
             samples.append({"spec": name, "requests": seq_len, "words": len(pool), "starts": starts})
     return {
         "evaluations": evaluations, "distinct_nontrivial": len(distinct),
-        "rule": (f"every spec of the family + 3 (ambiguous with >32 parses, bytes regex in text, several start symbols): one random sequence of {seq_len} "
-                 "requests (forest / first / abandoned forest / parse_multiple / fuzz; COMPLETE and INCOMPLETE; str and bytes renderings; other start "
+        "rule": (f"every spec of the family + 3 (ambiguous with >32 parses, bytes regex in text, several start symbols): 30 scripted requests (first-tree / abandoned request followed by the whole forest, same input and mode; damaged hand-outs followed by the same request) "
+                 f"and one random sequence of {seq_len} requests (forest / first / abandoned forest / parse_multiple / fuzz; COMPLETE and INCOMPLETE; str and bytes renderings; other start "
                  "symbols; 40 % of the handed-out trees damaged) on one shared grammar object, each result compared with the result of the same request "
                  "on a new object; distinct = distinct (spec, request); non-trivial = issued after at least one earlier request on the same object"),
         "bound": f"{seq_len} requests per spec, words up to 7 units", "samples": samples, "violations": violations,
@@ -189,14 +214,15 @@ def diverges(text, history):
 def minimise(text, history):
     """greedy: drop earlier requests while the last one still diverges (keeps the replay short; bounded effort)"""
     h = list(history)
+    deadline = time.time() + 90          # the replay only gets shorter; never spend long on it
     try:
-        res, to = with_budget(lambda: diverges(text, h), 60)
+        res, to = with_budget(lambda: diverges(text, h), 30)
         if to or not res:
             return h
         i = 0
-        while i < len(h) - 1 and len(h) > 1:
+        while i < len(h) - 1 and len(h) > 1 and time.time() < deadline:
             cand = h[:i] + h[i + 1:]
-            res, to = with_budget(lambda: diverges(text, cand), 30)
+            res, to = with_budget(lambda: diverges(text, cand), 10)
             if not to and res:
                 h = cand
             else:
